@@ -35,6 +35,17 @@ CLAIMED["C17"] = dict(
          "Bounded stand-in: real EnergyResult objects with 1-3 energy axes and real smoothers.",
     note=TB + "; assumed: the kernel weights are positive (Gaussian, -df/dE) so window sums are non-zero; smoothers along distinct axes commute (linear maps along different axes); np.tensordot contract (equal contracted extents) in the unbounded unit")
 
+CLAIMED["C12"] = dict(
+    text="run_grid.process (real text, extracted on every run) executed for EVERY behaviour of ray.wait allowed by its documented contract "
+         "(any subset of at most num_returns ready refs per call, in input order; readiness monotone; timeouts may return fewer), with "
+         "symbolic per-K results: exhaustive over n = 1..3 remote K-points with 2-3 unconstrained wait rounds (quick), n = 4 / 4 rounds "
+         "(thorough), 1 or 2 CPUs, three storage modes, with and without an already evaluated prefix. Proved per schedule: each result is "
+         "set exactly once on its own K-point, the returned sum equals the serial sum, the count is right, storage flags honoured; the "
+         "serial branch satisfies the same contract. Complete for the stated sizes (explicit enumeration of the external's behaviours, not "
+         "an unbounded proof). Replay: the imported process() under a fake ray with an adversarial schedule. "
+         "The path re-ordering clause (TABresult.self_to_path) is covered under C29.",
+    note=TB + "; ray.wait / ray.get external contracts as quoted from ray's documentation; schedule space bounded in n and in the number of unconstrained rounds")
+
 NOT_APPLICABLE = {
     "C20": "real-space symmetrisation is a data-dependent floating-point orbit search over irrep objects; its postcondition is only statable through an eigen-solver, no discrete/algebraic kernel is left once externals are abstracted (DESIGN section 7)",
     "C21": "rotation matrices are produced inside sympy (polynomial expansion + evalf); orthogonality/composition live in that CAS computation, outside any contract this engine can generate VCs for (DESIGN section 7)",
